@@ -494,7 +494,7 @@ func runFixNpm(o *output, u *universe, m manifestSpec, vs []vulnSpec, cfg upgrad
 	}
 	info := map[string]any{"universe": u, "manifest": m, "vulns": vs, "config": cfgJSON(cfg), "known_id": knownID}
 	ro := options.DefaultRemediationOptions()
-	ro.UpgradeConfig = cfg
+	ro.UpgradeConfig = viaStrings(cfg) // the run gets the configuration as spec strings; cfg is the intended one
 	// (1) in-situ Relax calls: ComputePatches on a traced manifest; every PatchRequirement is one Relax result
 	res0, err := guidedremediation.VerifC11ResolveManifest(ctx, cl, vm, m0, &ro)
 	if err == nil && len(res0.Vulns) > 0 {
